@@ -80,7 +80,12 @@ Bad(e) ==
                  <<"C17:result_good", \A j \in 1..Len(e.calls) : e.calls[j].good>>})
     [] e.op = "incl" ->
          Failed({<<"C16:included_in_sound", e.res => SubLang(Core(e.a), Core(e.b))>>,
-                 <<"C16:reflexive", e.same => e.res>>})
+                 <<"C16:reflexive", e.same => e.res>>,
+                 \* the union of the two terms (pruned with the same test) loses no string
+                 <<"C16:union_keeps_all_strings",
+                    Len(e.uwords) > 0 =>
+                      LET u == TAlt(<<Core(e.a), Core(e.b)>>) IN
+                      \A j \in 1..Len(e.uwords) : e.ures[j] = Accepts(u, e.uwords[j])>>})
     [] OTHER -> {"unknown_event"}
 
 Init == TInit
